@@ -73,6 +73,8 @@ LEAN = {
     "writerext": "Contracts.WriterExt",
     "c11ext": "Contracts.C11Ext",
     "v2000file": "Contracts.V2000File",
+    "witness2": "Contracts.Witness2",
+    "relabeltotal": "Contracts.RelabelTotal",
 }
 
 PROPS = {
@@ -82,8 +84,8 @@ PROPS = {
     "C02": dict(probes=["v3"], functions=CANON + SERIAL + PARSER, lean=["roundtrip", "layout", "parser", "canonicalize"], diff=["pipeline", "parser"], bounded=[("c02", None)]),
     "C03": dict(probes=["v3"], functions=CANON + SERIAL + PARSER, lean=["final", "roundtrip", "layout", "parser", "canonicalize", "finallabels"], diff=["pipeline", "parser"], bounded=[("pipeline", "c03")]),
     "C04": dict(probes=["v3"], functions=CANON, lean=["canonicalize"], diff=["pipeline"], bounded=[("pipeline", "c04")]),
-    "C05": dict(functions=CANON + SERIAL + V3000 + V2000, lean=["pipeline", "layout", "serialize", "reader", "v2000file", "fileiso"], diff=["pipeline"], bounded=[("c05", None)]),
-    "C06": dict(functions=CANON + SERIAL + V3000 + V2000, lean=["final", "pipeline", "reader", "v3000", "v2000", "fileiso"], diff=["pipeline", "io"], bounded=[("c06", None)]),
+    "C05": dict(functions=CANON + SERIAL + V3000 + V2000, lean=["pipeline", "layout", "serialize", "reader", "v2000file", "fileiso", "witness2"], diff=["pipeline"], bounded=[("c05", None)]),
+    "C06": dict(functions=CANON + SERIAL + V3000 + V2000, lean=["final", "pipeline", "reader", "v3000", "v2000", "fileiso", "witness2"], diff=["pipeline", "io"], bounded=[("c06", None)]),
     "C07": dict(functions=V3000, lean=["reader", "v30line", "v3000", "bonds", "c07star", "c07starbonds"], diff=["io"], bounded=[("c07", None)]),
     "C08": dict(functions=V2000 + V3000 + CANON + SERIAL, lean=["final", "v2000", "reader", "v2000file", "bonds", "fileiso"], diff=["io"], bounded=[("c08", None)]),
     "C09": dict(probes=["v5"], functions=WRITER + V3000 + PARSER + CANON + SERIAL, lean=["final", "writer", "v30line", "writerext", "bonds"], diff=["io"], bounded=[("c09", None)]),
@@ -93,7 +95,7 @@ PROPS = {
     "C13": dict(probes=[], functions=CANON, lean=["canonicalize", "partition", "c11ext"], diff=["pipeline"], bounded=[("pipeline", "c13")]),
     "C14": dict(functions=CANON + SERIAL + PARSER + V3000 + V2000 + WRITER, frames="registered", lean=["pipeline", "finallabels"], diff=[], bounded=[("c14", None)]),
     "C15": dict(functions=CANON + SERIAL + PARSER, lean=["pipeline", "canonicalize", "finallabels", "partition", "parser"], diff=["pipeline"], bounded=[("c15", None)]),
-    "C16": dict(probes=["v6"], functions=[F["permute_molecule"], F["_permute_molecule"], F["_sort_molecule_by_label"]], lean=["relabel"], diff=["pipeline"], bounded=[("c16", None)]),
+    "C16": dict(probes=["v6"], functions=[F["permute_molecule"], F["_permute_molecule"], F["_sort_molecule_by_label"]], lean=["relabel", "relabeltotal"], diff=["pipeline"], bounded=[("c16", None)]),
 }
 
 
@@ -108,13 +110,13 @@ TOP = {
     "C03": dict(level="proof", theorems=["Contracts.Final.C03_fixpoint", "Contracts.Final.C03_fixpoint_ex", "Contracts.RoundTrip.C03_pipeline", "Contracts.RoundTrip.C03_main", "Contracts.Parser.graph_from_tree_ok"],
                 note="both clauses proved under assumption V4 (ANTLR returns the tree of the grammar on the emitted string; bounded differential probe), BlissLawful, SetLawful; molecules are reader/parser output (MolOK, InvariantCodeOK)"),
     "C04": dict(level="proof", theorems=["Contracts.Canonicalize.C04_main"], note="under BlissLawful; requires that equal invariant codes imply equal identity attributes (true for reader/parser output)"),
-    "C05": dict(level="proof", theorems=["Contracts.Pipeline.C05_pipeline", "Contracts.Layout.Grammar.tucanSpec_in_grammar", "Contracts.Layout.tuples_layout", "Contracts.Layout.blocks_layout", "Contracts.Layout.formula_layout", "Contracts.V2000File.read_v2000_render", "Contracts.FileIso.idFacts_of_atomLine"],
+    "C05": dict(level="proof", theorems=["Contracts.Pipeline.C05_pipeline", "Contracts.Layout.Grammar.tucanSpec_in_grammar", "Contracts.Layout.tuples_layout", "Contracts.Layout.blocks_layout", "Contracts.Layout.formula_layout", "Contracts.V2000File.read_v2000_render", "Contracts.Witness2.C05_v2000_rendering"],
                 note="grammar = tucan.ebnf transcribed into Lean at character level; preconditions (symbols from the element table, positive mass/rad, no self-loop) are what the parser, the V3000 reader and (V2000File.read_v2000_render) the V2000 reader guarantee after fixes D3, D7, D8"),
-    "C06": dict(level="proof", theorems=["Contracts.Final.C06_reader_text", "Contracts.Final.C06_reader", "Contracts.Final.C08_agree", "Contracts.Pipeline.C06_graph_half", "Contracts.Reader.splitlines_crlf", "Contracts.Reader.graph_from_molfile_text_dress_irrelevant", "Contracts.FileIso.C06_files", "Contracts.FileIso.C06_resonance", "Contracts.FileIso.C01_C06_files", "Contracts.FileIso.C01_C06_texts", "Contracts.FileIso.C01_C06_v2000", "Contracts.FileIso.C01_C06_v3000_v2000"],
-                note="two renderings that agree on the normalised identity data (element with D/T = H mass 2/3, mass, radical; 0 = unset) up to a bijection of the atom lines get one common string, both reads succeed: coordinates, bond orders and annotations, charges, headers, index values, foreign keywords, line endings (LF/CRLF mixtures), V3000 vs V2000 are free (FileIso.C01_C06_files, C06_files, C06_resonance, C01_C06_v2000, C01_C06_v3000_v2000). Star-atom tables are outside the file-level theorems (C07Star covers their reading)"),
-    "C07": dict(level="proof", theorems=["Contracts.Reader.graph_from_molfile_text_render_ok", "Contracts.Reader.fileMeaning_plain_graph", "Contracts.V3000._parse_atom_attributes_ok", "Contracts.V30Line.splice_phys", "Contracts.Bonds.graph_from_molfile_text_render_ok_bonds", "Contracts.C07Star.graph_from_molfile_text_render_star", "Contracts.C07Star.graph_from_molfile_text_render_star_bonds", "Contracts.C07Star.graph_from_molfile_text_render_star_reject", "Contracts.C07Star.keyword_order_text", "Contracts.C07Star.atom_line_keyword_order", "Contracts.C07Star.hydrogen_isotope_mass", "Contracts.C07Star.wf_of_format"],
+    "C06": dict(level="proof", theorems=["Contracts.Final.C06_reader_text", "Contracts.Final.C06_reader", "Contracts.Final.C08_agree", "Contracts.Pipeline.C06_graph_half", "Contracts.Reader.splitlines_crlf", "Contracts.Reader.graph_from_molfile_text_dress_irrelevant", "Contracts.FileIso.C06_files", "Contracts.FileIso.C06_resonance", "Contracts.FileIso.C01_C06_files", "Contracts.FileIso.C01_C06_texts", "Contracts.Witness2.C06_v2000_renderings"],
+                note="two renderings that agree on the normalised identity data (element with D/T = H mass 2/3, mass, radical; 0 = unset) up to a bijection of the atom lines get one common string, both reads succeed: coordinates, bond orders and annotations, charges, headers, index values, foreign keywords, line endings (LF/CRLF mixtures) are free. File-level theorems: two star-free V3000 texts (FileIso.C01_C06_files, C06_files, C06_resonance), two V2000 renderings of abstract molecules with any encoding choices (Witness2.C06_v2000_renderings), V2000 vs V3000 of one molecule (C08). FileIso.C01_C06_v2000 / _v3000_v2000 generalise this over parsed line data and are intermediate only. Star-atom tables are outside the file-level theorems (C07Star covers their reading)"),
+    "C07": dict(level="proof", theorems=["Contracts.Reader.graph_from_molfile_text_render_ok", "Contracts.Reader.fileMeaning_plain_graph", "Contracts.V3000._parse_atom_attributes_ok", "Contracts.V30Line.splice_phys", "Contracts.Bonds.graph_from_molfile_text_render_ok_bonds", "Contracts.C07Star.graph_from_molfile_text_render_star", "Contracts.C07Star.graph_from_molfile_text_render_star_bonds", "Contracts.C07Star.graph_from_molfile_text_render_star_reject", "Contracts.C07Star.keyword_order_text", "Contracts.C07Star.wf_of_format", "Contracts.C07Star._parse_atom_attributes_keyword_order"],
                 note="V3000 renderer with arbitrary blank runs, cut points, header lines, separators, index values, keyword order (each of CHG/RAD/MASS at most once, shown necessary), foreign keywords; atoms, attributes and bond types on the returned graph; star atoms with ENDPTS expanded at text level (C07Star). float() opaque (V5). Known finding D11: a quoted string value containing a word like CHG=5 is misread (tokenizer not quote-aware)"),
-    "C08": dict(level="proof", theorems=["Contracts.Final.C08_agree", "Contracts.Reader.graph_from_molfile_text_v2000", "Contracts.V2000._parse_attribute_block_ok", "Contracts.V2000.specGet_mass_kept", "Contracts.V2000File.read_v2000_render", "Contracts.V2000File.read_v3000_render", "Contracts.V2000File.read_v2000_eq_v3000", "Contracts.V2000File.read_v2000_eq_v3000_lists", "Contracts.Bonds.graph_from_molfile_text_v2000_bonds", "Contracts.FileIso.C01_C06_v3000_v2000"],
+    "C08": dict(level="proof", theorems=["Contracts.Final.C08_agree", "Contracts.Reader.graph_from_molfile_text_v2000", "Contracts.V2000._parse_attribute_block_ok", "Contracts.V2000.specGet_mass_kept", "Contracts.V2000File.read_v2000_render", "Contracts.V2000File.read_v3000_render", "Contracts.V2000File.read_v2000_eq_v3000", "Contracts.V2000File.read_v2000_eq_v3000_lists"],
                 note="an abstract molecule (<= 999 atoms) rendered as V2000 with any choice of charge code vs M CHG/M RAD lines (supersession rule), grouping of 1-8 entries per line, unrelated property lines, atom lists, D/T with or without M ISO is read as exactly that molecule: element, charge, radical, mass, adjacency, bond types (V2000File.read_v2000_render); its V3000 rendering is read with the same values and both get the same TUCAN string (read_v2000_eq_v3000). Coordinates are not compared across the two formats (float() opaque)"),
     "C09": dict(level="proof", theorems=["Contracts.Writer.C09", "Contracts.Final.C09_tucan", "Contracts.Final.C09_string", "Contracts.Writer.C09_line_length", "Contracts.Writer.C09_splice", "Contracts.Writer.C09_atom_roundtrip", "Contracts.WriterExt.C09_coords", "Contracts.WriterExt.C09_tucan'", "Contracts.WriterExt.C09_string'", "Contracts.WriterExt.written_wellformed", "Contracts.WriterExt.written_wellformed_parsed", "Contracts.Bonds.C09_tucan_bonds", "Contracts.Bonds.C09_string_bonds"],
                 note="written file satisfies a format-level well-formedness predicate written from the CTfile rules (WriterExt.written_wellformed) incl. <= 80 characters per line; reading back gives the same atoms in order with element, charge, radical, mass, bond types on the graph (Bonds.C09_tucan_bonds) and coordinates equal to six decimals (WriterExt.C09_coords) under FloatLawful = float law V5 as a Lean hypothesis (satisfiable; probed on CPython); string round trip with hypotheses on the string only (C09_string'). Radicals 1..3 and labels >= 0 as in the quantifier"),
@@ -130,8 +132,8 @@ TOP = {
                 note="decided: (hash seed) the pipeline result is the same for any two set iteration orders (C01_tucan with g = h; the extractor shows sets are iterated only in canonicalization/serialization), (history) every function under contract is a pure function of its arguments with the recorded frame: no global writes, external state only random/clock/igraph/float as recorded, fresh listener per parse (glue fingerprint). NOT decided: thread schedules and state inside igraph, networkx and the antlr4 runtime (shared DFA cache) — bounded subprocess/thread probe only"),
     "C15": dict(level="proof", theorems=["Contracts.Pipeline.C15_pipeline_total", "Contracts.Partition.refine_ok", "Contracts.FinalLabels.assign_final_labels_total", "Contracts.Parser.graph_from_tree_error_is_TPE"],
                 note="total correctness with explicit fuel; call graph of the extracted functions is acyclic (constant call depth); ANTLR/igraph/networkx internals are assumptions"),
-    "C16": dict(level="proof", theorems=["Contracts.Relabel.permute_molecule_spec", "Contracts.Relabel.permute_molecule_rng_irrelevant"],
-                note="partial correctness: the retry loop terminates with probability 1 only, so the theorem assumes the call returned (Witness.permute_runs shows it can); 'same result for the same seed' is the random.shuffle contract V6 (a function of seed and draw number; probed), 'argument unchanged' is the frame obligation"),
+    "C16": dict(level="proof", theorems=["Contracts.Relabel.permute_molecule_spec", "Contracts.Relabel.permute_molecule_rng_irrelevant", "Contracts.RelabelTotal.C16_total", "Contracts.RelabelTotal.permute_molecule_returns", "Contracts.RelabelTotal.permute_molecule_returns_iff", "Contracts.RelabelTotal.permute_molecule_total_small"],
+                note="total correctness relative to the generator: the call returns exactly the first candidate relabelling (k-th shuffle draw for the seed) that passes the exit test, for every fuel above that index, and diverges (fuel error) iff no draw below the fuel passes (RelabelTotal.permute_molecule_returns, _returns_iff, C16_total); molecules with <= 1 bond or complete graphs return unconditionally. Hence 'same result for the same seed' is a theorem given the random.shuffle contract V6 (shuffle = a function of seed and draw number that permutes; probed); that some draw passes is a hypothesis about the draws (probability 1, not provable); 'argument unchanged' is the frame obligation"),
 }
 
 # vacuity guards: for every property-level theorem a concrete instance satisfying all its hypotheses is machine-checked in
@@ -149,3 +151,13 @@ WITNESSES["C08"] += [("Contracts.V2000File", "Contracts.V2000File.exMol_wf"), ("
 WITNESSES["C09"] += [("Contracts.WriterExt", "Contracts.WriterExt.C09_coords_witness"), ("Contracts.WriterExt", "Contracts.WriterExt.written_wellformed_witness"),
                      ("Contracts.WriterExt", "Contracts.WriterExt.floatLawful_satisfiable")]
 WITNESSES["C11"] += [("Contracts.C11Ext", "Contracts.C11Ext.renumber_water"), ("Contracts.C11Ext", "Contracts.C11Ext.spelling_water")]
+# second audit (lean/AUDIT2.md): full instances of the new main theorems
+_W2 = "Contracts.Witness2"
+WITNESSES["C01"].append((_W2, _W2 + ".C01_files_witness"))
+WITNESSES["C06"].append((_W2, _W2 + ".C06_files_witness"))
+WITNESSES["C08"] += [(_W2, _W2 + ".read_v2000_render_witness"), (_W2, _W2 + ".read_v2000_eq_v3000_witness")]
+WITNESSES["C09"].append((_W2, _W2 + ".C09_tucan'_witness"))
+WITNESSES["C11"].append((_W2, _W2 + ".C11_renumber_witness"))
+WITNESSES["C13"].append((_W2, _W2 + ".C13_attrs_witness"))
+WITNESSES["C16"] += [("Contracts.RelabelTotal", "Contracts.RelabelTotal.Witness.C16_total_witness"), ("Contracts.RelabelTotal", "Contracts.RelabelTotal.Witness.returns_witness"),
+                     ("Contracts.RelabelTotal", "Contracts.RelabelTotal.Witness.diverges_witness")]
